@@ -822,7 +822,8 @@ impl SvgElement {
         Ok(el_bbox)
     }
 
-    fn bbox_raw(&self) -> Result<Option<BoundingBox>> {
+    /// Bounding box from the element's own geometry, before any `transform` is applied.
+    pub(crate) fn bbox_raw(&self) -> Result<Option<BoundingBox>> {
         // For SVG 'Basic shapes' (e.g. rect, circle, ellipse, etc) for x/y and similar:
         // "If the attribute is not specified, the effect is as if a value of "0" were specified."
         // The same is not specified for 'size' attributes (width/height/r etc), so we require
